@@ -861,3 +861,25 @@ def box_into_vec(M, st, fr, t, args, site):
             if arr is not None:
                 return vec_value([('items', tuple(arr[1]))])
     return NotImplemented
+
+
+@summary("std::vec::Vec::<T, A>::resize")
+def vec_resize(M, st, fr, t, args, site):
+    """v.resize(new_len, value): known on the growing side (the shrinking side truncates and is modelled only for constant vectors)"""
+    a = args[0]
+    if a[0] != 'ref':
+        return NotImplemented
+    v = M.read(st, a[1], a[2])
+    segs = as_segments(M, st, v)
+    n = M.as_int(st, args[1])
+    if segs is None or n is None:
+        return NotImplemented
+    cur = vec_len(M, st, vec_value(segs))
+    grow = sx.Cmp('Gt', n, cur)
+    fill = ('blob', "fill(%s)" % M.describe(st, args[2]), sx.Bin('Sub', n, cur, 64, False))
+    out = []
+    s_grow = [(grow, True)]
+    out.append((s_grow, ('agg', None, 0, ()), [('vec-set', a[1], a[2], vec_value(merge_items(segs + [fill])))]))
+    # not growing: unchanged when equal; truncation when smaller is reported as an event
+    out.append(([(grow, False)], ('agg', None, 0, ()), [('resize-no-grow', M.cell_name(a[1]), sx.show(n), site)]))
+    return ('fork', out)
